@@ -110,6 +110,9 @@ CheckDeriveCase(c) ==
     [] c.ev = "plainnum" ->    \* nothing is an observable: the plain number (scipy's result)
          /\ Verdict(id, "plain number expected", c.res.k = "num")
          /\ c.res.k = "num" => Verdict(id, "value", RClose(c.res.v, Eval(c.expr, <<>>), "1/1000000000", "1/1000000000000"))
+    [] c.ev = "sameplain" ->   \* nothing is an observable: exactly what scipy returns for the same call (every entry of the returned tuple)
+         /\ Verdict(id, "returned " \o c.got.k \o " where scipy returns " \o c.want.k, c.got.k = c.want.k)
+         /\ c.got.k = c.want.k => Verdict(id, "equals scipy's result with the same keywords", c.got.v = c.want.v)
     [] c.ev = "raises" ->
          Verdict(id, "must-raise", c.res.k = "exc")
     [] OTHER -> Verdict(id, "unknown-event", FALSE)
